@@ -7,6 +7,7 @@ The actual sleep is the kernel's: it is measured, not proved (see tools/props/c1
 -/
 import Verif.Model.Timeout
 import Verif.Generated.PollSrc
+import Verif.Inv.Wheel
 
 namespace Verif.Props.C12
 open Verif.Timeout
@@ -55,5 +56,76 @@ theorem synthetic_zero (u : Option Nat) (e : Option Nat) (now : Nat) : waitFor u
 
 example : waitFor (some 20) false (some 130) 100 = some 20 ∧ waitFor (some 50) false (some 130) 100 = some 30 ∧
     waitFor none false (some 130) 100 = some 30 := by decide
+
+/-! ### The wait computed from the timer wheel itself
+
+`Poll::poll` does not receive "the earliest deadline" as a number: it asks `TimerWheel::next_deadline()`.
+The theorems above take that number as a parameter; these tie it to the heap (`Verif.Wheel`, the model
+the correspondence check of C05 runs against the real wheel), for every heap, timeout and instant. -/
+
+open Verif.Wheel in
+/-- the wait of one dispatch, from the user's timeout, the synthetic flag and the wheel as it is -/
+def waitFromWheel (u : Option Nat) (s : Bool) (w : Wheel) (now : Nat) : Option Nat :=
+  waitFor u s ((nextDeadline w).map Int.toNat) now
+
+open Verif.Wheel in
+/-- no oversleeping, against *every* armed timer: whatever is in the heap, the wait ends no later than its deadline
+(or at once if that is already past) -/
+theorem wheel_wait_le_every_armed_deadline (u : Option Nat) (s : Bool) (w : Wheel) (now : Nat) (x : Entry) (hx : x ∈ w.heap) :
+    ∃ wt, waitFromWheel u s w now = some wt ∧ now + wt ≤ max x.deadline.toNat now := by
+  cases hn : nextDeadline w with
+  | none => rw [(Verif.Inv.Wheel.nextDeadline_none_iff w).mp hn] at hx; cases hx
+  | some d =>
+    have hmin := (Verif.Inv.Wheel.nextDeadline_spec w d hn).2 x hx
+    obtain ⟨wt, h1, h2⟩ := eff_le_deadline u s d.toNat now
+    refine ⟨wt, by simpa [waitFromWheel, hn] using h1, ?_⟩
+    have : d.toNat ≤ x.deadline.toNat := Int.toNat_le_toNat hmin
+    omega
+
+open Verif.Wheel in
+/-- an unbounded wait is asked for only with timeout None, no synthetic event and an *empty* heap -/
+theorem wheel_wait_none_iff (u : Option Nat) (s : Bool) (w : Wheel) (now : Nat) :
+    waitFromWheel u s w now = none ↔ (u = none ∧ s = false ∧ w.heap = []) := by
+  unfold waitFromWheel
+  rw [eff_none_iff, Option.map_eq_none_iff, Verif.Inv.Wheel.nextDeadline_none_iff]
+
+open Verif.Wheel in
+/-- no spinning: with a timeout and no synthetic event the wait is at least min(timeout, time to the earliest armed
+deadline), the earliest being an entry of the heap that no other entry precedes -/
+theorem wheel_wait_ge_min (t : Nat) (w : Wheel) (now wt : Nat) (h : waitFromWheel (some t) false w now = some wt) :
+    (w.heap = [] ∧ wt = t) ∨
+    ∃ e ∈ w.heap, (∀ x ∈ w.heap, e.deadline ≤ x.deadline) ∧ min t (e.deadline.toNat - now) ≤ wt := by
+  cases hn : nextDeadline w with
+  | none =>
+    left
+    refine ⟨(Verif.Inv.Wheel.nextDeadline_none_iff w).mp hn, ?_⟩
+    simp [waitFromWheel, hn, waitFor, effTimeout, withSynthetic, nextTimeout] at h
+    omega
+  | some d =>
+    right
+    obtain ⟨⟨e, he, hed⟩, hmin⟩ := Verif.Inv.Wheel.nextDeadline_spec w d hn
+    refine ⟨e, he, fun x hx => hed ▸ hmin x hx, ?_⟩
+    have := eff_ge_min t d.toNat now wt (by simpa [waitFromWheel, hn] using h)
+    rw [hed]; exact this
+
+/-- arming one more timer never lengthens the wait -/
+theorem wheel_wait_insert_le (u : Option Nat) (s : Bool) (w : Verif.Wheel.Wheel) (now : Nat) (d : Int) (tk : Verif.Token.Tok)
+    (wt : Nat) (h : waitFromWheel u s w now = some wt) :
+    ∃ wt', waitFromWheel u s (Verif.Wheel.insert w d tk).1 now = some wt' ∧ wt' ≤ wt := by
+  obtain ⟨d', hd', _, hle⟩ := Verif.Inv.Wheel.nextDeadline_insert_le w d tk
+  cases hn : Verif.Wheel.nextDeadline w with
+  | none =>
+    cases u <;> cases s <;>
+      simp [waitFromWheel, hn, hd', waitFor, effTimeout, withSynthetic, nextTimeout, untilDeadline] at h ⊢ <;> omega
+  | some d0 =>
+    have h0 := hle d0 hn
+    have : d'.toNat ≤ d0.toNat := Int.toNat_le_toNat h0
+    cases u <;> cases s <;>
+      simp [waitFromWheel, hn, hd', waitFor, effTimeout, withSynthetic, nextTimeout, untilDeadline] at h ⊢ <;> omega
+
+/-- non-vacuity: a heap with three armings (not in deadline order), one of them already past -/
+example : waitFromWheel (some 50) false { heap := [⟨130, ⟨0, 0, 0⟩, 0⟩, ⟨110, ⟨1, 0, 0⟩, 1⟩, ⟨400, ⟨2, 0, 0⟩, 2⟩], counter := 3 } 100 = some 10 ∧
+    waitFromWheel none false { heap := [⟨130, ⟨0, 0, 0⟩, 0⟩, ⟨-5, ⟨1, 0, 0⟩, 1⟩], counter := 2 } 100 = some 0 ∧
+    waitFromWheel none false {} 100 = none := by decide
 
 end Verif.Props.C12
